@@ -240,7 +240,7 @@ def run_monitor(module: str, cfg: str, shard_files: list[Path], *, timeout: floa
 
 def write_shards(traces, nshards: int, dirname: str = "shards") -> list[Path]:
     """traces: iterable of lists of event dicts (one list per trace).  Round-robin into ndjson shards."""
-    d = scratch(dirname)
+    d = Path(tempfile.mkdtemp(prefix=dirname + "-", dir=scratch()))          # never shared: not between calls, not between forked workers
     files = [d / f"shard{i:02d}.ndjson" for i in range(nshards)]
     fhs = [open(f, "w") for f in files]
     sizes = [0] * nshards
